@@ -79,6 +79,9 @@ theorem ltr_mine {s : State} {t : Tid} {e : Event} {x' : Thr} (ha : InvA s) (h :
   | retBroadcast hl hb => right; exact h0 (by simp [inWaitN, hl])
   | callWaitN hl => right; exact h0 (by simp [inWaitN, hl])
   | retWaitN hl hm => right; exact hm
+  | callDebug k hl => right; exact h0 (by simp [inWaitN, hl])
+  | retDebug k hl hk => right; exact h0 (by simp [inWaitN, hl])
+  | dbgLd obs hl ho => left; split <;> simp
   | spinLd site obs hl ho => left; split <;> simp
   | spinLdN obs hl ho => left; split <;> simp
   | sigLd site obs hl hs ho => left; split <;> simp
@@ -114,6 +117,8 @@ theorem invG_tr {cfg : Config} {s s' : State} {e : Event} (ha : InvA s) (hb : In
         (fun u => by by_cases hu : u = t <;> simp [hu])
     · exact invG_frame hg (fun r _ hni => ⟨hni, rfl, rfl⟩)
         (fun u => by by_cases hu : u = t <;> simp [hu])
+    · exact invG_frame hg (fun r _ hni => ⟨hni, rfl, rfl⟩)
+        (fun u => by by_cases hu : u = t <;> simp [hu])
     · dsimp only
       have hsub : ∀ q, q ∈ (if (s.thr t).bcast = true then s.queue else sigSelect s.recs s.queue) → q ∈ s.queue := by
         intro q hq
@@ -138,6 +143,8 @@ theorem invG_tr {cfg : Config} {s s' : State} {e : Event} (ha : InvA s) (hb : In
   | relSig t site new obs n hl hs hh hnew hn hsp =>
     exact invG_frame hg (fun r _ hni => ⟨hni, rfl, rfl⟩) (fun u => by by_cases hu : u = t <;> simp [hu])
   | relDeqW t new obs n hl hh hnew hn hsp =>
+    exact invG_frame hg (fun r _ hni => ⟨hni, rfl, rfl⟩) (fun u => by by_cases hu : u = t <;> simp [hu])
+  | relDbg t new obs n hl hh hnew hn hsp =>
     exact invG_frame hg (fun r _ hni => ⟨hni, rfl, rfl⟩) (fun u => by by_cases hu : u = t <;> simp [hu])
   | relDeq t new obs n hl hh hnew hn hsp =>
     have hidle : (match (s.recs (s.thr t).r).stat with | .listed u => RStat.listed u | _ => RStat.idle) = .idle := by
